@@ -56,6 +56,9 @@ type Engine struct {
 	strOps    map[string]bool
 	loopStates map[*loopInfo]*liState
 	oblCount map[string]int
+	litHooks []func()
+	inLitHook bool
+	hookKeys map[string]bool
 	allocReach map[string]string
 	pureMemo map[string]Val
 	rootArgs []Val
@@ -73,7 +76,7 @@ type Engine struct {
 
 func newEngine(w *World) *Engine {
 	e := &Engine{w: w, sc: newScript(), comps: map[string]*component{}, lits: map[string]string{}, litFacts: map[string]bool{},
-		guard: "true", allocReach: map[string]string{}, pureMemo: map[string]Val{}, loopAllocN: map[string]int{}, tags: map[string]int{}, funcIDs: map[*ssa.Function]int{}, abstracted: map[string]int{}, assumedExt: map[string]int{},
+		guard: "true", hookKeys: map[string]bool{}, allocReach: map[string]string{}, pureMemo: map[string]Val{}, loopAllocN: map[string]int{}, tags: map[string]int{}, funcIDs: map[*ssa.Function]int{}, abstracted: map[string]int{}, assumedExt: map[string]int{},
 		inlined: map[string]int{}, usedContracts: map[string]int{}, uf: map[string]bool{}, strOps: map[string]bool{}, loopStates: map[*loopInfo]*liState{}, oblCount: map[string]int{}, memo: map[string]execResult{}, dirty: map[string]bool{}}
 	e.sc.add("(declare-sort F64 0)")
 	e.sc.add("(declare-const f64_zero F64)")
@@ -121,6 +124,14 @@ func (e *Engine) strLit(s string) string {
 	// distinct from every other literal (injective numbering), and its length is known
 	e.sc.add(fmt.Sprintf("(assert (= (gs_id %s) (_ bv%d 32)))", name, len(e.litOrder)))
 	e.sc.add(fmt.Sprintf("(assert (= (gs_len %s) %s))", name, bvLit(uint64(len(s)), 64)))
+	// facts of the string functions in use, for the new literal
+	if !e.inLitHook {
+		e.inLitHook = true
+		for i := 0; i < len(e.litHooks); i++ {
+			e.litHooks[i]()
+		}
+		e.inLitHook = false
+	}
 	return name
 }
 
